@@ -836,6 +836,8 @@ class Context(MetadataContextMixin, object):
             state.log_exception(
                 f"Failed getting metadata for key '{key}'",
                 traceback=traceback.format_exc(),
+                position=resource_query.position,
+                query=resource_query.encode(),
             )
             self.warning(
                 f"Failed getting metadata for key '{key}'",
